@@ -149,7 +149,7 @@ def run(ctx):
     rows = list(g)
     ctx.coverage['rule'] = ('sequential histories over up to %d distinct filters around the cache capacity %d (ascending, each repeated, cyclic over capacity+1 = LRU-hostile, random with repetition), '
                             'early function objects re-used at the end; all schedules with one preemption and %s with two for 2 threads, one preemption for 3 threads, at every source line inside hszinc/grid_filter.py and grid.py; '
-                            'distinct by (history position) / (schedule)' % (3 * cap + 40, cap, 'all' if thorough else 'a sample of'))
+                            'distinct by (history position) / (schedule)' % (3 * cap + 40, cap, '6000 sampled' if thorough else '260 sampled'))
 
     # ---------------- 1. sequential histories
     def history(kind):
@@ -241,8 +241,7 @@ def run(ctx):
         plans.append((2, [(0, p), (1, 10 ** 9)]))
         plans.append((2, [(1, p), (0, 10 ** 9)]))
     two = [(p, q) for p in range(1, steps + 1) for q in range(1, steps + 1)]
-    if not thorough:
-        two = rng.sample(two, min(len(two), 260))
+    two = rng.sample(two, min(len(two), 6000 if thorough else 260))
     for p, q in two:
         plans.append((2, [(0, p), (1, q), (0, 10 ** 9)]))
     three = [(a, b) for a in range(0, steps + 1, 1 if thorough else 4) for b in range(0, steps + 1, 1 if thorough else 4)]
